@@ -87,7 +87,9 @@ fn rfc3339(ts: &str) -> Option<f64> {
     Some((days * 86_400 + h * 3600 + mi * 60 + s - off) as f64 + frac)
 }
 
+#[allow(dead_code)]
 const REGIONS_V: [&str; 7] = ["us", "eu", "cn", "kr", "tw", "sg", "xx"];
+#[allow(dead_code)]
 const REGIONS_C: [&str; 5] = ["us", "eu", "kr", "tw", "cn"];
 
 impl Scenario for Ribbit {
@@ -134,7 +136,13 @@ impl Scenario for Ribbit {
         // one database in twelve has a product whose name needs care on some transport (the request line
         // splits on '/', the HTTP client builds a URL from it)
         if rng.chance(1, 12) {
-            products[0] = (*rng.pick(&["WoW-Beta.1", "wow beta", "w\u{00f6}w", "wow?x=1", "wow#frag", "wow%41", "wow+plus", "wow&amp"])).to_string();
+            products[0] = (*rng.pick(&[
+                "WoW-Beta.1", "wow beta", "w\u{00f6}w", "wow?x=1", "wow#frag", "wow%41", "wow+plus", "wow&amp",
+                // dot segments and characters a URL library rewrites; names equal to route words; a long name
+                "..", ".", "wow\\x", "wow;v=1", "wow:80", "user@wow", "products", "summary", "versions", "v1",
+                "a-very-long-product-name-a-very-long-product-name-a-very-long-product-name-a-very-long-product-name-a-very-long-product-name",
+            ]))
+            .to_string();
         }
         let nrec = rng.range(1, 6) as usize;
         let hostile = rng.chance(22, 100);
@@ -143,7 +151,7 @@ impl Scenario for Ribbit {
             if !hostile || rng.chance(50, 100) {
                 return plain.to_string();
             }
-            match rng.below(14) {
+            match rng.below(16) {
                 // strings that look like the FRAMING of one of the wire formats (MIME boundary and epilogue
                 // of TCP v1, BPSV type markers and sequence-number line)
                 9 => format!("{plain}--RibbitBoundary"),
@@ -151,6 +159,9 @@ impl Scenario for Ribbit {
                 11 => format!("{plain} Checksum: 00"),
                 12 => format!("{plain}!DEC:4"),
                 13 => "## seqn = 1".to_string(),
+                // look-alikes of what the CLIENT sniffs to tell a V1 MIME reply from a bare V2 document
+                14 => format!("{plain} Content-Type: multipart/alternative"),
+                15 => "MIME-Version: 1.0 Content-Type: multipart/mixed; boundary=x".to_string(),
                 0 => format!("{plain}|x"),
                 1 => format!("{plain}#y"),
                 2 => format!("{plain} with spaces"),
@@ -216,7 +227,11 @@ impl Scenario for Ribbit {
                 let endpoint = if transport == "tcp1" { (*rng.pick(&["versions", "versions", "cdns", "bgdl", "summary"])).to_string() } else { (*rng.pick(&["versions", "versions", "cdns", "bgdl"])).to_string() };
                 clients.push(Client::Good { transport, product: products[rng.usize_below(nprod)].clone(), endpoint, delay_ms });
             } else {
-                let kind = (*rng.pick(&["unknown_product", "wrong_arity", "empty_line", "huge_line", "non_utf8", "never_terminated", "slow_loris", "connect_and_close", "unknown_version"])).to_string();
+                let kind = (*rng.pick(&[
+                    "unknown_product", "wrong_arity", "empty_line", "huge_line", "non_utf8", "never_terminated", "slow_loris", "connect_and_close", "unknown_version",
+                    "unknown_endpoint", "double_slash", "trailing_slash", "v2_summary", "summary_extra", "nul_in_line", "upper_case", "leading_space", "bare_cr",
+                ]))
+                .to_string();
                 clients.push(Client::Bad { kind, delay_ms });
             }
         }
@@ -290,7 +305,13 @@ fn versions_row_matches(doc: &BpsvDocument, row: &cascette_formats::bpsv::BpsvRo
     ];
     for (name, got, exp) in checks {
         if got != exp {
-            return Err(format!("column {name}: client read {got:?}, the database record says {exp:?}"));
+            // an absent hash may be served as an empty field or as all zeros; a number may be served in a
+            // string column as long as the text is the same
+            let zeros_for_absent = exp == BpsvValue::Empty && matches!(&got, BpsvValue::Hex(h) if h.iter().all(|b| *b == 0));
+            let same_text = matches!((&got, &exp), (BpsvValue::String(g), BpsvValue::Dec(e)) if g == &e.to_string());
+            if !(zeros_for_absent || same_text) {
+                return Err(format!("column {name}: client read {got:?}, the database record says {exp:?}"));
+            }
         }
     }
     Ok(())
@@ -304,9 +325,11 @@ async fn run(case: &Case, ctx: &mut Ctx) -> Option<Violation> {
         .iter()
         .enumerate()
         .map(|(i, r)| {
+            // hex columns are compared as bytes, so the case the operator used must not matter
+            let up = |h: String| if r.hseed % 5 == 0 { h.to_uppercase() } else { h };
             json!({
                 "id": i as u64 + 1, "product": r.product, "version": r.version, "build": r.build,
-                "build_config": hash32(r.hseed, 11), "cdn_config": hash32(r.hseed, 12), "keyring": r.keyring, "product_config": r.product_config,
+                "build_config": up(hash32(r.hseed, 11)), "cdn_config": up(hash32(r.hseed, 12)), "keyring": r.keyring.clone().map(&up), "product_config": r.product_config.clone().map(&up),
                 "build_time": r.build_time, "encoding_ekey": hash32(r.hseed, 13), "root_ekey": hash32(r.hseed, 14),
                 "install_ekey": hash32(r.hseed, 15), "download_ekey": hash32(r.hseed, 16), "cdn_path": r.cdn_path
             })
@@ -417,12 +440,19 @@ async fn run(case: &Case, ctx: &mut Ctx) -> Option<Violation> {
         match endpoint {
             "versions" | "bgdl" => {
                 let cands = newest(product);
-                if doc.rows().len() != REGIONS_V.len() {
-                    return Err(("wrong_row_count".into(), format!(",endpoint={endpoint}"), format!("{transport} {product}/{endpoint}: {} rows, expected one per region ({})", doc.rows().len(), REGIONS_V.len())));
+                // which regions are served, and in which order, is not part of the property: every row there
+                // is must carry the newest build's fields (at least one row)
+                if doc.rows().is_empty() {
+                    return Err(("wrong_row_count".into(), format!(",endpoint={endpoint}"), format!("{transport} {product}/{endpoint}: no rows for a product that is in the database")));
+                }
+                let region_of = |row: &cascette_formats::bpsv::BpsvRow| row.get_by_name("Region", doc.schema()).and_then(|v| v.as_string().map(str::to_string)).unwrap_or_default();
+                let regions: Vec<String> = doc.rows().iter().map(region_of).collect();
+                if regions.iter().any(String::is_empty) || (1..regions.len()).any(|i| regions[..i].contains(&regions[i])) {
+                    return Err(("field_mismatch".into(), format!(",endpoint={endpoint}"), format!("{transport} {product}/{endpoint}: empty or repeated Region values {regions:?}")));
                 }
                 let mut last_err = String::new();
                 let ok = cands.iter().any(|r| {
-                    doc.rows().iter().zip(REGIONS_V.iter()).all(|(row, region)| match versions_row_matches(doc, row, region, r) {
+                    doc.rows().iter().zip(regions.iter()).all(|(row, region)| match versions_row_matches(doc, row, region, r) {
                         Ok(()) => true,
                         Err(e) => {
                             last_err = e;
@@ -432,7 +462,7 @@ async fn run(case: &Case, ctx: &mut Ctx) -> Option<Violation> {
                 });
                 if !ok {
                     // is it some OTHER (older) record of the product?
-                    let older = case.db.iter().filter(|r| r.product == product && !cands.iter().any(|c| std::ptr::eq(*c, *r))).any(|r| doc.rows().iter().zip(REGIONS_V.iter()).all(|(row, region)| versions_row_matches(doc, row, region, r).is_ok()));
+                    let older = case.db.iter().filter(|r| r.product == product && !cands.iter().any(|c| std::ptr::eq(*c, *r))).any(|r| doc.rows().iter().zip(regions.iter()).all(|(row, region)| versions_row_matches(doc, row, region, r).is_ok()));
                     if older {
                         return Err(("wrong_build_chosen".into(), if mixed_ts { ",timestamps=mixed_formats".into() } else { ",timestamps=uniform_utc".into() }, format!("{transport} {product}/{endpoint}: the rows describe a build that is not the chronologically newest of the product (newest build_time: {})", cands.first().map(|r| r.build_time.as_str()).unwrap_or("?"))));
                     }
@@ -442,16 +472,16 @@ async fn run(case: &Case, ctx: &mut Ctx) -> Option<Violation> {
             }
             "cdns" => {
                 let cands = newest(product);
-                if doc.rows().len() != REGIONS_C.len() {
-                    return Err(("wrong_row_count".into(), ",endpoint=cdns".into(), format!("{transport} {product}/cdns: {} rows, expected {}", doc.rows().len(), REGIONS_C.len())));
+                if doc.rows().is_empty() {
+                    return Err(("wrong_row_count".into(), ",endpoint=cdns".into(), format!("{transport} {product}/cdns: no rows for a product that is in the database")));
                 }
                 let sch = doc.schema();
                 let ok = cands.iter().any(|r| {
                     let path = r.cdn_path.clone().unwrap_or_else(|| default_cdn.path.clone());
                     let cpath = r.cdn_path.clone().unwrap_or_else(|| default_cdn.config_path.clone());
-                    doc.rows().iter().zip(REGIONS_C.iter()).all(|(row, region)| {
+                    doc.rows().iter().all(|row| {
                         let g = |n: &str| row.get_by_name(n, sch).and_then(|v| v.as_string().map(str::to_string)).unwrap_or_default();
-                        g("Name") == *region && g("Path") == path && g("Hosts") == default_cdn.hosts && g("Servers") == default_cdn.servers && g("ConfigPath") == cpath
+                        !g("Name").is_empty() && g("Path") == path && g("Hosts") == default_cdn.hosts && g("Servers") == default_cdn.servers && g("ConfigPath") == cpath
                     })
                 });
                 if !ok {
@@ -521,6 +551,15 @@ async fn run(case: &Case, ctx: &mut Ctx) -> Option<Violation> {
                         }
                         "non_utf8" => b"\xff\xfe\x80v1/products\r\n".to_vec(),
                         "never_terminated" => b"v1/products/wow/versions".to_vec(),
+                        "unknown_endpoint" => b"v1/products/wow/nope\r\n".to_vec(),
+                        "double_slash" => b"v1/products//versions\r\n".to_vec(),
+                        "trailing_slash" => b"v1/products/wow/versions/\r\n".to_vec(),
+                        "v2_summary" => b"v2/summary\r\n".to_vec(),
+                        "summary_extra" => b"v1/summary/x\r\n".to_vec(),
+                        "nul_in_line" => b"v1/products/w\0w/versions\r\n".to_vec(),
+                        "upper_case" => b"V1/PRODUCTS/WOW/VERSIONS\r\n".to_vec(),
+                        "leading_space" => b"  v1/products/wow/nope\r\n".to_vec(),
+                        "bare_cr" => b"v1/products/wow/nope\r".to_vec(),
                         _ => Vec::new(),
                     };
                     match kind.as_str() {
@@ -561,10 +600,17 @@ async fn run(case: &Case, ctx: &mut Ctx) -> Option<Violation> {
                     let took = t0.elapsed().as_millis();
                     let summary = format!("bad {kind}: closed={closed} after {took}ms, {} reply bytes", got.len());
                     if !closed {
+                        // a line that never ends is not yet a request: whether the server times such a connection
+                        // out is tuning (it must not wedge the server, which the liveness probe decides)
+                        if kind == "never_terminated" || kind == "slow_loris" || kind == "bare_cr" {
+                            return (ci, format!("{summary} (unfinished request left open: not judged)"), Ok(()));
+                        }
                         return (ci, summary, Err(("connection_not_closed".into(), format!(",kind={kind}"), format!("malformed client '{kind}': {took} ms of virtual time after connecting the server has neither replied with an error nor closed the connection"))));
                     }
-                    // a malformed request must not be answered with data rows
-                    if got.windows(5).any(|w| w == b"|us|\n" || w == b"\nus|") || String::from_utf8_lossy(&got).contains("Region!STRING") {
+                    // a malformed request must not be answered with data rows (request lines a lenient server may
+                    // legitimately accept - case, padding, a trailing slash, summary over v2 - are not judged here)
+                    let lenient_ok = matches!(kind.as_str(), "trailing_slash" | "upper_case" | "leading_space" | "v2_summary");
+                    if !lenient_ok && got.windows(5).any(|w| w == b"|us|\n" || w == b"\nus|") || String::from_utf8_lossy(&got).contains("Region!STRING") {
                         return (ci, summary, Err(("malformed_request_answered".into(), format!(",kind={kind}"), format!("malformed client '{kind}' received a data reply of {} bytes", got.len()))));
                     }
                     (ci, summary, Ok(()))
